@@ -5,6 +5,7 @@ import KcpVerif.Props.C01Reduce
 import KcpVerif.Lemmas.C11IsoSys
 import KcpVerif.Lemmas.C11IsoTrace
 import KcpVerif.Lemmas.C11IsoAcc
+import KcpVerif.Lemmas.C11IsoDial
 import KcpVerif.Lemmas.C11IsoWire
 /-!
 C11 — `isolation` (DESIGN.md 7.11, Tier-2 composition) and "no cross stall".
@@ -147,7 +148,7 @@ slice-bounds panic has been flagged: C05 proves none can be under its hypotheses
 freezes the ghost session, the real process has crashed) the session component of every step is the
 `Model/Sess` function, and `rd` / `wr` record exactly what `Read` returned / `WriteBuffers` accepted. -/
 
-/-- the listener's environment is the one named in the task: `kcpInput s d = (Sess.packetInput s d now).s`,
+/-- the listener's environment consists of the `Model/Sess` functions: `kcpInput s d = (Sess.packetInput s d now).s`,
 `init conv = Sess.new conv`, `closeFx` = the flush of `Close` -/
 theorem C11_world_is_sess (now : U32) (x : SessG) (hd : x.dead = false) :
     (∀ d, (x.s.packetInput d now).panic = false → ((world now).kcpInput x d).s = (x.s.packetInput d now).s) ∧
@@ -232,6 +233,48 @@ theorem C11_no_cross_stall_sessions (ciph : Cipher) (honest : String → Bool) (
   have hi := C11_isolation_state ciph honest pre
   rw [C11Iso.run_l ciph honest evs _ hd hn]
   exact (C11_no_cross_stall _ hi.wf hi.wf2 a id S hS hSa _).1
+
+/-! ### the dialled side -/
+
+/-- **`C11_dial_isolation`.**  A session dialled to the remote `r` (a UDP address or any other
+`net.Addr`), behind the source filter of its read loop latched on `r`, and its peer session, both
+`Model/Sess` (any initial sessions satisfying the hypotheses of `C01_session_plain`).  ANY history of:
+the peer doing anything; the application / scheduler on the dialled session; datagrams from the remote
+that the peer has emitted (any order, multiplicity, delay); ARBITRARY datagrams from ANY source that is
+not the remote (`DEv.other`, processed by the real filter: `recvFrom`).  Then what the dialled session's
+`Read` has returned is a prefix of what the peer's `WriteBuffers` has accepted: datagrams that do not come
+from its peer's address never reach `packetInput` (`C11_dial_filter`, `C11_dial_filter_string`), and the
+filter stays latched. -/
+theorem C11_dial_isolation (r : Remote) (hr : r.ok) (sA sB : Sess) (hA : Fresh sA.k) (hB : Fresh sB.k)
+    (hbB : sB.bufptr = []) (hsn : sB.k.rcv_nxt = sA.k.snd_nxt) (hm : 0 < sA.k.mss.toNat) (evs : List DEv)
+    (hL : (drun r ⟨{ s := sA }, { s := sB }, r.filter⟩ evs).srv.log.length < 2 ^ 32) :
+    (drun r ⟨{ s := sA }, { s := sB }, r.filter⟩ evs).cli.rd <+: (drun r ⟨{ s := sA }, { s := sB }, r.filter⟩ evs).srv.wr ∧
+    (drun r ⟨{ s := sA }, { s := sB }, r.filter⟩ evs).f = r.filter := by
+  obtain ⟨hf, ops, hops⟩ := drun_inv r hr sA sB evs ⟨{ s := sA }, { s := sB }, r.filter⟩ rfl ⟨[], rfl⟩
+  refine ⟨?_, hf⟩
+  have := C01_session_plain sA sB hA hB hbB hsn hm ops (by rw [hops]; exact hL)
+  rw [hops] at this
+  exact this
+
+/-- the remote `10.0.0.1:7000`, a stranger `10.0.0.2:7000` and the same IP on another port -/
+def c11Remote : Remote := .udp ([10, 0, 0, 1], 7000, "")
+def c11AddrPeer : Dial.Addr := { udp := some ([10, 0, 0, 1], 7000, ""), str := "10.0.0.1:7000" }
+def c11AddrOther : Dial.Addr := { udp := some ([10, 0, 0, 2], 7000, ""), str := "10.0.0.2:7000" }
+def c11AddrPort : Dial.Addr := { udp := some ([10, 0, 0, 1], 7001, ""), str := "10.0.0.1:7001" }
+
+/- the peer writes `[1, 2, 3]`; a stranger and the peer's IP on another port inject a well-formed PUSH of the
+same conversation carrying `[9]` with sn 0 BEFORE the genuine datagram arrives: they are filtered (the third
+`other` event names the remote itself and is not an event of this system: spoofing is excluded), the
+genuine one is delivered, `Read` returns `[1, 2, 3]` -/
+set_option maxRecDepth 1000000 in
+example :
+    (drun c11Remote ⟨{ s := Sess.new 7 }, { s := Sess.new 7 }, c11Remote.filter⟩
+      [.srv (.write [[1, 2, 3]] 0), .srv (.update 0),
+       .other c11AddrOther [7, 0, 0, 0, 81, 0, 32, 0, 0, 0, 0, 0, 0, 0, 0, 0, 0, 0, 0, 0, 1, 0, 0, 0, 9] 1,
+       .other c11AddrPort [7, 0, 0, 0, 81, 0, 32, 0, 0, 0, 0, 0, 0, 0, 0, 0, 0, 0, 0, 0, 1, 0, 0, 0, 9] 1,
+       .other c11AddrPeer [7, 0, 0, 0, 81, 0, 32, 0, 0, 0, 0, 0, 0, 0, 0, 0, 0, 0, 0, 0, 1, 0, 0, 0, 9] 1,
+       .peer c11AddrPeer 0 2, .cli (.read 100)]).cli.rd = [1, 2, 3] := by
+  decide +kernel
 
 /-! ### non-vacuity: two honest peers, a forger, a reconnect, stale traffic -/
 
